@@ -7,6 +7,7 @@ import os
 import sys
 root = '/repo'
 out = {}
+meths = {}
 for dirpath, dirs, files in os.walk(os.path.join(root, 'wn')):
     dirs[:] = sorted(d for d in dirs if d != '__pycache__')
     for f in sorted(files):
@@ -14,11 +15,18 @@ for dirpath, dirs, files in os.walk(os.path.join(root, 'wn')):
             rel = os.path.relpath(os.path.join(dirpath, f), root)
             tree = ast.parse(open(os.path.join(root, rel), encoding='utf-8').read())
             out[rel] = sorted(n.name for n in tree.body if isinstance(n, (ast.FunctionDef, ast.AsyncFunctionDef)))
+            meths[rel] = {c.name: sorted(m.name for m in c.body if isinstance(m, (ast.FunctionDef, ast.AsyncFunctionDef)))
+                          for c in tree.body if isinstance(c, ast.ClassDef)}
 here = os.path.join(os.path.dirname(os.path.dirname(os.path.abspath(__file__))), 'wnstatic', 'known_funcs.py')
 with open(here, 'w') as fh:
     fh.write('"""module-level functions of wn/ known to the analyses (tools/gen_known_funcs.py); see wnstatic/normalize.py"""\n')
     fh.write('KNOWN = {\n')
     for rel, names in sorted(out.items()):
         fh.write(f'    {rel!r}: {names!r},\n')
+    fh.write('}\n')
+    fh.write('KNOWN_METHODS = {\n')
+    for rel, cl in sorted(meths.items()):
+        if cl:
+            fh.write(f'    {rel!r}: {cl!r},\n')
     fh.write('}\n')
 print('wrote', here, sum(len(v) for v in out.values()), 'functions')
